@@ -100,12 +100,19 @@ CHECKS = {
         "engine": "sched",
         "text": ("Lean theorems: updateRec_fuel_enough (no unbounded recursion for any graph), circular_sound (a reported "
                  "cycle is a genuine reachable cycle of lagging dependencies, through pull-based components too), "
-                 "lagging_never_updated (no silently wrong schedule), no_lag_cycle_of_delay_sum_partial (ring algebra: "
-                 "accumulated delay >= sum of steps leaves no lag cycle, any placement/split, with the start clamp). "
-                 "Tied to schedule.py by the correspondence on rings (outcome class, update sequence) and the oracle "
-                 "(unresolved => circular-coupling error; resolved => completes). The connect-phase stall is C06's."),
+                 "lagging_never_updated (no silently wrong schedule), no_lag_cycle_of_delay_sum_partial (ring algebra at "
+                 "snapshot level), and at run level sufficient_delay_run_completes: when every cycle carries enough delay "
+                 "(stated by a potential pi with pi(p) + maxstep(c) - delay(link) <= pi(c) on every link, equivalent to "
+                 "'delay on each cycle >= sum of its largest steps', delay = accumulated DelayFixed delays that take effect "
+                 "on the request, wherever placed and however split) the level time+pi strictly decreases along every edge "
+                 "of the dependency walk (edge_level), so no lag cycle exists (no_lag_cycle), no circular-coupling error is "
+                 "ever raised (no_circular), and with C03Run.run_terminates the run ends normally. Scope of the run-level "
+                 "theorem: time-stepped components, adapters pass-through / push-based / no-dependency / fixed delay. Tied "
+                 "to schedule.py by the correspondence on rings (pull components, chords, tails, feeders; outcome class, "
+                 "update sequence) and the oracle (unresolved => circular-coupling error; resolved => completes). The "
+                 "connect-phase stall is C06's."),
         "design_ref": "5/C04",
-        "technique": "Lean 4 proof (pigeonhole on the chain; induction over the walk; linear arithmetic over cyclic lists) + model/implementation correspondence",
+        "technique": "Lean 4 proof (pigeonhole on the chain; induction over the walk; strictly decreasing potential along lag edges; termination potential) + model/implementation correspondence",
     },
     "C08": {
         "engine": "link",
